@@ -12,6 +12,8 @@
 //             1 eV clamp inside sample_direction is an interior threshold); without relaxation,
 //             with radiative relaxation, with radiative + Auger; relaxation cuts {0, 2.5e-4, 1e-3, 1}
 //             (1e-3 separates the K lines from the L lines; 1 disables relaxation altogether)
+//             for gamma and electron alike, plus split cuts (gamma, electron) = (1e-2, 0),
+//             (0, 1e-2), (2.5e-4, 1e-3), (1e-3, 2.5e-4) [the last also without Auger]
 //   rayleigh  Livermore Rayleigh, gamma          [1e-6, 1e8] MeV  ((0, 1e8])
 //   bh        Bethe-Heitler, gamma               [2 m_e c^2, 1e8] MeV (CELER_EXPECT E >= 2 m_e)
 //   eplusgg   e+ annihilation                    {0} u [1e-6, 1e8] MeV
@@ -32,7 +34,7 @@
 // consistent problem).
 //
 // Per configuration (model variant, particle, material/element, cuts, incident energy) - the
-// outermost, sharded index - all 18 directions (6 axes + 8 diagonals + 4 near-pole letters, see
+// outermost, sharded index - all 20 directions (6 axes + 8 diagonals + 6 near-pole letters, see
 // direction_alphabet()) x all RNG scripts are run
 // with ample secondary storage (every 8th script with exactly the needed number of free slots),
 // plus, per direction, one call with 0 and one with need-1 free slots.
@@ -49,6 +51,11 @@
 //   values      every energy finite and >= 0, every live product's direction unit to 1e-12,
 //               every surviving secondary has a particle id of the problem; absorbed <=> zero
 //               post-interaction energy
+//   identity    ("defined particle types") Compton/delta electrons are electrons, the pair is
+//               one e- and one e+, annihilation and bremsstrahlung products are photons; a
+//               relaxation product whose energy is that of a radiative (non-radiative) EADL
+//               transition of the element is a photon (electron) - the two energy tables of
+//               Z=19 are disjoint, so this decides every product
 //   energy      incident KE (+2 m_e c^2 if the incident is a positron) == outgoing + secondaries
 //               + local deposit (+2 m_e c^2 per outgoing positron), tolerance 8 ulp of the
 //               incident total (at most ~6 roundings of quantities <= that total occur)
@@ -57,12 +64,24 @@
 //               pe, rayleigh, bh, brems: the atom/nucleus takes up momentum there (documented).
 //               Tolerance: 16 eps (sum|p| + E_in * sum 1/beta) + 4 * angle slack (see Audit)
 //               + 4 sum|p| * angular ambiguity of a near-pole incident direction.
+//               eplusgg in flight additionally: photon 0 alone must satisfy the two-body relation
+//               cos(theta_0) = E_tot (1 - m/k0) / p ("photon-kinematics", rounding model at the
+//               check) - alive although the pair's momentum sum is a recorded defect.
 //   threshold   kn electron >= secondary_cutoff(); moller/bhabha electron >= electron cut;
-//               relaxation products >= their cut; brems photon >= min(cut, E) up to the rounding
-//               of "x + d - d" with the density correction d
+//               relaxation products >= the cut of their own particle type; brems photon >=
+//               min(cut, E) up to the rounding of "x + d - d" with the density correction d
 //   storage     free slots < need  => Interaction::from_failure(), stack size unchanged, prefix
 //               untouched; free slots >= need => success, secondaries inside the new allocation
 //   draws       <= 10^4 words
+//
+// Signatures: model:kind@energy-regime; direction-dependent kinds at a near-pole direction letter
+// get @near-pole(y<0) / @near-pole(y>=0) instead (rotate()'s renormalising branch drops the sign
+// of y: recorded; that defect is exactly a rotation into the frame of the mirrored direction
+// (x,|y|,z), so a y<0 failure keeps the recorded class only if the oracle holds about the mirrored
+// direction and becomes @near-pole(y<0;unexplained) otherwise); brems draw-bound carries the incident particle, model:draw-bound[e+]@regime;
+// an e+ annihilation momentum imbalance whose second photon lies along the incident direction
+// (the fingerprint of the recorded EPlusGG defect) is eplusgg:momentum-balance[photon1-along-
+// incident], any other imbalance keeps the ordinary signature.
 #include <algorithm>
 #include <cmath>
 #include <cstdint>
@@ -238,13 +257,18 @@ static std::vector<Script> build_scripts(bool thorough)
 // every interactor uses for its exiting directions (corecel/math/ArrayUtils.hh rotate():
 // "typical" sin(theta) >= 0.005 | 0 < sin(theta) < 0.005 | sin(theta) == 0).  The axes and
 // diagonals cover the first and the last branch; the "near-pole" letters cover the middle one:
-// a direction 1e-3 rad off +z / -z with a negative y component, and the unit vector
-// (0, 0, +-(1 - 2^-53)) that make_unit_vector returns for many inputs along z.
+// directions 1e-3 rad off +z / -z with a negative AND with a positive y component (rotate()'s
+// renormalising branch rebuilds sin(phi) as +sqrt(1 - cos(phi)^2), a recorded defect for y < 0:
+// the two signs of y are separate signature classes "@near-pole(y<0)" / "@near-pole(y>=0)" so
+// that the recorded defect cannot hide anything for y >= 0), and the unit vector
+// (0, 0, +-(1 - 2^-53)) that make_unit_vector returns for many inputs along z (class y>=0).
 struct DirLetter
 {
     Real3 v;
     bool raw;  // store bit-for-bit instead of normalising
     bool near_pole;
+    //! Signature class of a direction-dependent failure for this letter
+    char const* pole_class() const { return v[1] < 0 ? "near-pole(y<0)" : "near-pole(y>=0)"; }
 };
 static std::vector<DirLetter> const& direction_alphabet()
 {
@@ -255,6 +279,8 @@ static std::vector<DirLetter> const& direction_alphabet()
         double const z1 = std::nextafter(1.0, 0.0);
         r.push_back({{6e-4, -8e-4, 1.0}, false, true});
         r.push_back({{6e-4, -8e-4, -1.0}, false, true});
+        r.push_back({{6e-4, 8e-4, 1.0}, false, true});
+        r.push_back({{6e-4, 8e-4, -1.0}, false, true});
         r.push_back({{0, 0, z1}, true, true});
         r.push_back({{0, 0, -z1}, true, true});
         return r;
@@ -304,6 +330,14 @@ struct Spec
     // Names of the branch bits (for tags)
     std::vector<std::string> bit_names;
     uint64_t min_words = 0;  // draws of a first-try acceptance (more => "retry" tag)
+    // Qualifier of the draw-bound signature ("model:draw-bound[<draw_tag>]@regime"): the brems
+    // models put the incident particle here, so that the recorded non-termination of the
+    // positron corrector cannot hide a new one for electrons
+    std::string draw_tag;
+    // Qualifier of a momentum-balance violation ("model:momentum-balance[<q>]", no regime
+    // suffix) when the outcome shows the complete fingerprint of ONE specific recorded defect;
+    // empty string = ordinary signature.  Arguments: outcome, incident direction.
+    std::function<std::string(Interaction const&, Real3 const&)> momentum_qual;
 };
 
 struct Ctx
@@ -315,6 +349,21 @@ struct Ctx
 };
 
 static constexpr long double eps = 2.220446049250313e-16L;
+
+//! Largest residual/tolerance ratio of a rounding-model oracle, per direction class (evidence:
+//! shows the margin of the model on the unchanged tree)
+struct Worst
+{
+    double ordinary = 0, pole_pos = 0, pole_neg = 0;
+    void note(double x, Real3 const& inc)
+    {
+        bool const np = std::hypot(inc[0], inc[1]) < 0.005;
+        double& v = !np ? ordinary : (inc[1] < 0 ? pole_neg : pole_pos);
+        if (x > v)
+            v = x;
+    }
+};
+static Worst g_kin_worst;
 
 static void run_config(Ctx& C, Spec const& S)
 {
@@ -343,12 +392,30 @@ static void run_config(Ctx& C, Spec const& S)
     // Signature: model:kind@energy-regime; for the near-pole direction letters the kinds that
     // depend on the direction get model:kind@near-pole instead (what they exercise is the
     // shared rotation helper, and a finding there must not mask one for ordinary directions).
+    // The near-pole class carries the sign of the incident y component (see DirLetter).
     bool near_pole = false;
-    auto sig_of = [&S, &near_pole](char const* kind) {
-        bool const dir_dependent = !strcmp(kind, "invalid-final-state")
-                                   || !strcmp(kind, "momentum-balance");
-        return S.model + ":" + kind + "@"
-               + (near_pole && dir_dependent ? std::string("near-pole") : S.regime);
+    char const* pole_class = "";
+    // The recorded rotate() defect at y < 0 is EXACTLY a rotation of the products into the frame
+    // of the mirrored incident direction (x, |y|, z).  A direction-dependent oracle that fails at
+    // a y < 0 letter is therefore re-evaluated with the mirrored direction: only if it holds
+    // there does the failure carry the recorded class "@near-pole(y<0)"; otherwise the kind is
+    // passed with a trailing '!' and the class becomes "@near-pole(y<0;unexplained)" (live).
+    auto sig_of = [&S, &near_pole, &pole_class](char const* kind) {
+        std::string k = kind;
+        bool unexplained = false;
+        if (!k.empty() && k.back() == '!')
+        {
+            k.pop_back();
+            unexplained = true;
+        }
+        bool const dir_dependent = k == "invalid-final-state" || k == "momentum-balance"
+                                   || k == "photon-kinematics";
+        if (k == "draw-bound" && !S.draw_tag.empty())
+            k += "[" + S.draw_tag + "]";
+        std::string cls = near_pole && dir_dependent ? std::string(pole_class) : S.regime;
+        if (unexplained && cls == "near-pole(y<0)")
+            cls = "near-pole(y<0;unexplained)";
+        return S.model + ":" + k + "@" + cls;
     };
     // Violations of a degenerate configuration are observations
     // ... and so are failures that need BOTH the 2^-20-wide near-cut energy window AND an
@@ -379,6 +446,7 @@ static void run_config(Ctx& C, Spec const& S)
         else
             env.set_inc_direction(dirs[di].v);
         near_pole = dirs[di].near_pole;
+        pole_class = dirs[di].pole_class();
         R.tag(near_pole ? "direction:near-pole" : "direction:axis-or-diagonal");
         env.set_inc_particle(S.inc, MevEnergy{S.energy});
         Real3 const inc_dir = env.direction();
@@ -511,8 +579,62 @@ static void run_config(Ctx& C, Spec const& S)
                 long double tol = 16 * eps * (a.p_scale + a.e_in * a.inv_beta_sum)
                                   + 4 * a.p_angle_slack + 4 * inc_amb * a.p_scale;
                 ++n_mom;
+                std::string const q = (a.p_res > tol && S.momentum_qual)
+                                          ? S.momentum_qual(r, inc_dir)
+                                          : std::string();
+                // y < 0 near-pole letter: is the imbalance explained by the recorded rotate()
+                // defect?  The two-body models rotate ONE product (A) from its sampled polar
+                // angle into the incident frame - with the defect: into the frame of the mirrored
+                // direction m = (x,|y|,z) - and give the other (B) the direction of
+                // p_in - p_A (calc_exiting_direction, about the true direction).  For the
+                // recorded defect therefore | p_in m - p_A d_A | == p_B for one of the two
+                // assignments (tolerance model of the balance itself); otherwise "unexplained".
+                bool mirror_ok = true;
+                if (a.p_res > tol && near_pole && inc_dir[1] < 0)
+                {
+                    struct Prod
+                    {
+                        long double p;
+                        Real3 d;
+                    };
+                    auto pmag = [&env](ParticleId id, long double ke) {
+                        return std::sqrt(ke * (ke + 2 * env.mass(id)));
+                    };
+                    std::vector<Prod> prods;
+                    if (r.action == Interaction::Action::scattered)
+                        prods.push_back({pmag(S.inc, r.energy.value()), r.direction});
+                    for (auto const& s : r.secondaries)
+                        if (s)
+                            prods.push_back({pmag(s.particle_id, s.energy.value()), s.direction});
+                    long double const pin = pmag(S.inc, S.energy);
+                    long double const mir[3] = {inc_dir[0], -(long double)inc_dir[1], inc_dir[2]};
+                    // tolerance of the balance with the angle slack taken about the mirrored
+                    // direction (a product sampled almost along the frame axis is ill-defined
+                    // in angle about THAT axis)
+                    Real3 const mir_d{inc_dir[0], -inc_dir[1], inc_dir[2]};
+                    vf::Audit const am = L.audit(S.inc, S.energy, mir_d, r);
+                    long double const tolm
+                        = 16 * eps * (am.p_scale + am.e_in * am.inv_beta_sum)
+                          + 4 * am.p_angle_slack + 4 * inc_amb * am.p_scale;
+                    mirror_ok = false;
+                    if (prods.size() == 2)
+                        for (int A = 0; A < 2; ++A)
+                        {
+                            long double v2 = 0;
+                            for (int i = 0; i < 3; ++i)
+                            {
+                                long double c = pin * mir[i] - prods[A].p * prods[A].d[i];
+                                v2 += c * c;
+                            }
+                            if (std::fabs(std::sqrt(v2) - prods[1 - A].p) <= tolm)
+                                mirror_ok = true;
+                        }
+                    R.tag(mirror_ok ? "near-pole(y<0):imbalance-explained-by-mirrored-rotation"
+                                    : "near-pole(y<0):imbalance-unexplained");
+                }
                 if (a.p_res > tol)
-                    report(sig_of("momentum-balance"), fmt("|p_in - sum p_out| = %.6Lg (tolerance %.3Lg, |p| scale %.6Lg): "
+                    report(q.empty() ? sig_of(mirror_ok ? "momentum-balance" : "momentum-balance!")
+                                     : S.model + ":momentum-balance[" + q + "]", fmt("|p_in - sum p_out| = %.6Lg (tolerance %.3Lg, |p| scale %.6Lg): "
                                     "%s; %s",
                                     a.p_res, tol, a.p_scale, describe(r).c_str(),
                                     where(fs, si).c_str()));
@@ -728,6 +850,11 @@ int main(int argc, char** argv)
                 if (el)
                 {
                     *bits |= 1;
+                    if (el.particle_id != id_e)
+                    {
+                        *sig = "product-identity";
+                        return std::string("Compton electron is not an electron");
+                    }
                     // documented: "A secondary production cutoff is applied to the outgoing
                     // electron" (exact comparison in the code, no rounding involved)
                     if (el.energy.value() < cutoff)
@@ -840,6 +967,16 @@ int main(int argc, char** argv)
                         *sig = "invalid-final-state";
                         return std::string("expected an e-/e+ pair");
                     }
+                    // the pair is one electron and one positron (either order)
+                    {
+                        ParticleId const a = r.secondaries[0].particle_id,
+                                         b = r.secondaries[1].particle_id;
+                        if (!((a == id_e && b == id_p) || (a == id_p && b == id_e)))
+                        {
+                            *sig = "product-identity";
+                            return std::string("pair is not one e- and one e+");
+                        }
+                    }
                     *bits |= E < 2.0 ? 1 : 2;
                     if (E > 50.0)
                         *bits |= 4;
@@ -880,14 +1017,91 @@ int main(int argc, char** argv)
                                            G.secondary_allocator());
                 return interact(rng);
             };
-            S.extra = [=](Interaction const& r, uint32_t* bits, std::string* sig) {
+            S.extra = [&G, E, me, id_g](Interaction const& r, uint32_t* bits, std::string* sig) {
                 if (r.secondaries.size() != 2 || !r.secondaries[0] || !r.secondaries[1])
                 {
                     *sig = "invalid-final-state";
                     return std::string("expected two photons");
                 }
                 *bits |= E == 0 ? 1 : 2;
+                if (r.secondaries[0].particle_id != id_g || r.secondaries[1].particle_id != id_g)
+                {
+                    *sig = "product-identity";
+                    return std::string("annihilation product is not a photon");
+                }
+                if (E > 0)
+                {
+                    // Two-body kinematics of e+ (T, p along the incident direction) + e- at rest
+                    // -> photons k0, k1 judged for photon 0 ALONE, independent of what the
+                    // interactor does with photon 1: |p - k0|^2 = k1^2 = (E_tot - k0)^2 gives
+                    //   cos(theta_0) = E_tot (1 - m / k0) / p,   E_tot = T + 2m, p^2 = T E_tot
+                    // (k0 + k1 == E_tot is the energy balance).  Rounding model: the interactor
+                    // forms cos from eps = k0/E_tot as (eps*tau2 - 1) / (eps*sqrt(tau*tau2)) with
+                    // eps*tau2 = k0/m = 1/B and the denominator = k0 p / (E_tot m) = 1/(A B),
+                    // A = E_tot/p: numerator error <= 2 eps max(1, 1/B), i.e. <= 2 eps A (1 + B)
+                    // in the quotient, plus <= 4 eps |cos| from tau, tau2, the root and the
+                    // division, plus eps A B from rounding k0 = eps*E_tot itself; 16 eps A (1+B)
+                    // covers these with a factor > 4.  The direction adds the conditioning of a
+                    // near-pole incident direction (inc_amb, same model as the momentum check:
+                    // sin(theta_0) <= 1 times the angular ambiguity) and 16 eps for the two
+                    // normalisations and the dot product.
+                    long double const m = me, T = E, Etot = T + 2 * m, p = std::sqrt(T * Etot);
+                    long double const k0 = r.secondaries[0].energy.value();
+                    Real3 const inc = G.direction();
+                    long double c_obs = 0;
+                    for (int i = 0; i < 3; ++i)
+                        c_obs += (long double)r.secondaries[0].direction[i] * inc[i];
+                    long double const A = Etot / p, B = m / k0;
+                    long double const c_exp = A * (1 - B);
+                    long double const sin_z = std::hypot((long double)inc[0], (long double)inc[1]);
+                    long double const d8 = 8 * eps;
+                    long double const inc_amb
+                        = std::fabs(inc[2]) == 1
+                              ? 0.0L
+                              : std::min(std::sqrt(2 * d8), sin_z > 0 ? d8 / sin_z : 1.0L);
+                    long double const tol = 16 * eps * A * (1 + B) + 16 * eps + 4 * inc_amb;
+                    long double const res = std::fabs(c_obs - c_exp);
+                    g_kin_worst.note(double(res / tol), inc);
+                    if (!(res <= tol))
+                    {
+                        // y < 0 near-pole letter: recorded class only if the relation holds
+                        // about the mirrored incident direction (see sig_of in run_config)
+                        long double c_mir = 0;
+                        for (int i = 0; i < 3; ++i)
+                            c_mir += (long double)r.secondaries[0].direction[i]
+                                     * (i == 1 ? -inc[i] : inc[i]);
+                        bool const mirror_ok = std::fabs(c_mir - c_exp) <= tol;
+                        *sig = (inc[1] < 0 && !mirror_ok) ? "photon-kinematics!"
+                                                          : "photon-kinematics";
+                        return fmt("photon 0 (k0 = %.17Lg): cos to the incident direction %.17Lg, "
+                                   "two-body kinematics requires %.17Lg (diff %.3Lg, tolerance "
+                                   "%.3Lg)",
+                                   k0, c_obs, c_exp, c_obs - c_exp, tol);
+                    }
+                }
                 return std::string();
+            };
+            // Recorded defect (known finding): in flight the second photon is emitted along the
+            // incident direction (calc_exiting_direction is handed the incident momentum twice).
+            // Only that fingerprint gets the qualified signature; photon 0 has its own oracle
+            // above, the energies are covered by the energy balance.
+            S.momentum_qual = [=](Interaction const& r, Real3 const& inc) {
+                if (!(E > 0) || r.secondaries.size() != 2)
+                    return std::string();
+                auto const& d = r.secondaries[1].direction;
+                long double cx = (long double)d[1] * inc[2] - (long double)d[2] * inc[1];
+                long double cy = (long double)d[2] * inc[0] - (long double)d[0] * inc[2];
+                long double cz = (long double)d[0] * inc[1] - (long double)d[1] * inc[0];
+                long double dot = (long double)d[0] * inc[0] + (long double)d[1] * inc[1]
+                                  + (long double)d[2] * inc[2];
+                // parallel within the rounding of p*inc - T*inc (the defective call; two products
+                // of size p and T rounded, difference p - T: relative error eps (p + T)/(p - T)
+                // per component) and of one make_unit_vector
+                long double const T = E, p = std::sqrt(T * (T + 2 * me));
+                bool const along = dot > 0
+                                   && std::sqrt(cx * cx + cy * cy + cz * cz)
+                                          <= 8 * eps * (1 + (p + T) / (p - T));
+                return std::string(along ? "photon1-along-incident" : "");
             };
             run_config(C, S);
         }
@@ -936,6 +1150,11 @@ int main(int argc, char** argv)
                         {
                             *sig = "invalid-final-state";
                             return std::string("expected one delta electron");
+                        }
+                        if (r.secondaries[0].particle_id != id_e)
+                        {
+                            *sig = "product-identity";
+                            return std::string("delta ray is not an electron");
                         }
                         double T = r.secondaries[0].energy.value();
                         // T = E * (1/x) with 1/x >= cut/E analytically; three roundings
@@ -1004,6 +1223,7 @@ int main(int argc, char** argv)
                             S.energy = E;
                             S.need = 1;
                             S.min_words = 2 * 6;
+                            S.draw_tag = electron ? "e-" : "e+";
                             S.bit_names = {"lpm-regime", "no-lpm-regime", "dirac-fock-Z<5",
                                            "tsai-Z>=5", "cut-above-incident", "photon-near-cut",
                                            "photon-hard"};
@@ -1024,6 +1244,11 @@ int main(int argc, char** argv)
                                 {
                                     *sig = "invalid-final-state";
                                     return std::string("expected one photon");
+                                }
+                                if (r.secondaries[0].particle_id != id_g)
+                                {
+                                    *sig = "product-identity";
+                                    return std::string("bremsstrahlung product is not a photon");
                                 }
                                 *bits |= (lpm && (long double)E + me > lpm_thr + me) ? 1 : 2;
                                 *bits |= z < 5 ? 4 : 8;
@@ -1093,21 +1318,59 @@ int main(int argc, char** argv)
         AtomicRelaxationReader read_relax(path.c_str(), path.c_str());
         ImportAtomicRelaxation const relax_data = read_relax(AtomicNumber{19});
 
+        // Energies of the radiative (fluorescence photon) and non-radiative (Auger electron)
+        // transitions of the element, straight from the imported EADL data: the identity oracle
+        // of a relaxation product (the library copies the energy of the sampled transition
+        // unchanged into the secondary)
+        std::set<double> fluor_energy, auger_energy;
+        for (auto const& sh : relax_data.shells)
+        {
+            for (auto const& t : sh.fluor)
+                fluor_energy.insert(t.energy);
+            for (auto const& t : sh.auger)
+                auger_energy.insert(t.energy);
+        }
+        {
+            size_t both = 0;
+            for (double e : fluor_energy)
+                both += auger_energy.count(e);
+            R.note("relaxation-transition-energies",
+                   fmt("Z=19: %zu radiative, %zu non-radiative distinct energies, %zu common "
+                       "(identity undecidable for those)",
+                       fluor_energy.size(), auger_energy.size(), both));
+        }
+
+        // Production cuts of the relaxation variants.  Equal gamma/electron cuts {0, 2.5e-4,
+        // 1e-3, 1} as before, plus SPLIT cuts (the normal situation: Geant4 cuts are range based,
+        // so the photon and electron energy thresholds of a material always differ): every
+        // product is compared with the cut of its own particle type.
+        //   (1e-2, 0)      photons all cut (K-alpha 3.3 keV), every Auger electron emitted
+        //   (0, 1e-2)      every photon emitted, Auger electrons all cut
+        //   (2.5e-4,1e-3)  photons down to the L lines, electrons only from K-shell transitions
+        //   (1e-3,2.5e-4)  the reverse; also for fluorescence alone (there the electron cut must
+        //                  be ignored)
         struct Variant
         {
             char const* name;
             bool relax;
             bool auger;
-            double cut;
+            double cut_g;  // gamma production cut
+            double cut_e;  // electron production cut
         };
-        std::vector<Variant> variants = {{"pe", false, false, 0.0}};
+        std::vector<Variant> variants = {{"pe", false, false, 0.0, 0.0}};
         for (bool auger : {false, true})
             for (double cut : {0.0, 2.5e-4, 1e-3, 1.0})
-                variants.push_back({auger ? "pe-auger" : "pe-fluor", true, auger, cut});
+                variants.push_back({auger ? "pe-auger" : "pe-fluor", true, auger, cut, cut});
+        variants.push_back({"pe-fluor", true, false, 1e-3, 2.5e-4});
+        variants.push_back({"pe-auger", true, true, 1e-2, 0.0});
+        variants.push_back({"pe-auger", true, true, 0.0, 1e-2});
+        variants.push_back({"pe-auger", true, true, 2.5e-4, 1e-3});
+        variants.push_back({"pe-auger", true, true, 1e-3, 2.5e-4});
 
         for (Variant const& V : variants)
         {
-            K.set_cutoffs({{pdg::gamma(), MevEnergy{V.cut}}, {pdg::electron(), MevEnergy{V.cut}}});
+            K.set_cutoffs(
+                {{pdg::gamma(), MevEnergy{V.cut_g}}, {pdg::electron(), MevEnergy{V.cut_e}}});
             CutoffView const cutoffs = K.cutoff_view();
             std::shared_ptr<AtomicRelaxationParams> relax_params;
             HostVal<AtomicRelaxStateData> relax_states;
@@ -1142,7 +1405,11 @@ int main(int argc, char** argv)
             {
                 Spec S;
                 S.model = V.name;
-                S.cid = fmt("%s:cut=%g:E=%s", V.name, V.cut, hexd(E).c_str());
+                // (case ids of the equal-cut variants are unchanged: old replays stay valid)
+                S.cid = V.cut_g == V.cut_e
+                            ? fmt("%s:cut=%g:E=%s", V.name, V.cut_g, hexd(E).c_str())
+                            : fmt("%s:cut=g%g,e%g:E=%s", V.name, V.cut_g, V.cut_e,
+                                  hexd(E).c_str());
                 S.regime = regime_of(E, 1e-7, e_high, thr);
                 S.env = &K;
                 S.inc = pe_g;
@@ -1152,7 +1419,9 @@ int main(int argc, char** argv)
                 S.bit_names = {"tabulated-shell-xs", "parameterised-low", "parameterised-high",
                                "no-shell-full-deposit", "forward-above-100MeV", "K-shell",
                                "outer-shell", "relaxation-emitted", "relaxation-all-cut",
-                               "fluorescence", "auger", "energy-clamped-1eV"};
+                               "fluorescence", "auger", "energy-clamped-1eV",
+                               "identity-undecidable(energy-in-both-tables)",
+                               "product-energy-in-no-table"};
                 S.call = [&](Eng& rng) {
                     LivermorePEInteractor interact(ref, relaxation, el_id, K.particle_track(),
                                                    cutoffs, K.direction(),
@@ -1210,12 +1479,32 @@ int main(int argc, char** argv)
                                 return std::string("Auger electron with Auger disabled");
                             }
                             // documented (CutoffParams.hh / AtomicRelaxation): products are
-                            // created only at or above the production cut; exact comparison
-                            if (s.energy.value() < V.cut)
+                            // created only at or above the production cut OF THEIR OWN PARTICLE
+                            // TYPE; exact comparison
+                            double const own_cut = s.particle_id == pe_g ? V.cut_g : V.cut_e;
+                            if (s.energy.value() < own_cut)
                             {
                                 *sig = "below-threshold";
-                                return fmt("relaxation product %s below the cut %g",
-                                           vf::dstr(s.energy.value()).c_str(), V.cut);
+                                return fmt("relaxation %s %s below its production cut %g",
+                                           s.particle_id == pe_g ? "photon" : "electron",
+                                           vf::dstr(s.energy.value()).c_str(), own_cut);
+                            }
+                            // identity: a radiative transition yields a photon, a non-radiative
+                            // one an electron; decided by the table the energy comes from
+                            bool const in_f = fluor_energy.count(s.energy.value()) != 0;
+                            bool const in_a = auger_energy.count(s.energy.value()) != 0;
+                            if (in_f && in_a)
+                                *bits |= 4096;
+                            else if (!in_f && !in_a)
+                                *bits |= 8192;
+                            else if ((s.particle_id == pe_g) != in_f)
+                            {
+                                *sig = "product-identity";
+                                return fmt("relaxation product with the energy %s of a %s "
+                                           "transition is emitted as %s",
+                                           vf::dstr(s.energy.value()).c_str(),
+                                           in_f ? "radiative" : "non-radiative",
+                                           s.particle_id == pe_g ? "a photon" : "an electron");
                             }
                         }
                     }
@@ -1251,7 +1540,8 @@ int main(int argc, char** argv)
         }
         U.resize_secondaries(stack_cap);
         U.set_cutoffs({});
-        ParticleId const u_e = U.pid(pdg::electron()), u_p = U.pid(pdg::positron());
+        ParticleId const u_e = U.pid(pdg::electron()), u_p = U.pid(pdg::positron()),
+                         u_g = U.pid(pdg::gamma());
         std::string const path = data_dir();
         SeltzerBergerReader read_sb(path.c_str());
         auto ip_e = U.make_import_process(
@@ -1320,6 +1610,7 @@ int main(int argc, char** argv)
                         S.energy = E;
                         S.need = 1;
                         S.min_words = 2 * 6;
+                        S.draw_tag = electron ? "e-" : "e+";
                         S.bit_names = {"electron", "positron-corrected", "photon-near-cut",
                                        "photon-hard"};
                         S.call = [&](Eng& rng) {
@@ -1334,6 +1625,11 @@ int main(int argc, char** argv)
                             {
                                 *sig = "invalid-final-state";
                                 return std::string("expected one photon");
+                            }
+                            if (r.secondaries[0].particle_id != u_g)
+                            {
+                                *sig = "product-identity";
+                                return std::string("bremsstrahlung product is not a photon");
                             }
                             *bits |= electron ? 1 : 2;
                             long double const k = r.secondaries[0].energy.value();
@@ -1398,6 +1694,7 @@ int main(int argc, char** argv)
                             S.energy = E;
                             S.need = 1;
                             S.min_words = 2 * 6;
+                            S.draw_tag = electron ? "e-" : "e+";
                             S.bit_names = {"sb-branch", "relativistic-branch", "photon-near-cut",
                                            "photon-hard", "lpm-regime"};
                             S.call = [&](Eng& rng) {
@@ -1413,6 +1710,11 @@ int main(int argc, char** argv)
                                 {
                                     *sig = "invalid-final-state";
                                     return std::string("expected one photon");
+                                }
+                                if (r.secondaries[0].particle_id != u_g)
+                                {
+                                    *sig = "product-identity";
+                                    return std::string("bremsstrahlung product is not a photon");
                                 }
                                 *bits |= E < 1e3 ? 1 : 2;
                                 long double const m = 0.5109989461L;
@@ -1442,6 +1744,9 @@ int main(int argc, char** argv)
     if (char const* only = getenv("VERIF_C04_ONLY"))
         if (*only)
             R.cap_hit(std::string("VERIF_C04_ONLY=") + only);
+    R.maxi("eplusgg.photon0_kinematics_permille_of_tol", uint64_t(g_kin_worst.ordinary * 1000));
+    R.maxi("eplusgg.photon0_kinematics_permille_of_tol@near-pole(y>=0)",
+           uint64_t(g_kin_worst.pole_pos * 1000));
     R.count("configurations_total", R.shard() == 0 ? C.index : 0);
     R.note("scripts", fmt("%zu per (configuration, direction)", scripts.size()));
     R.sample(fmt("script#0 = {%s}; script#%zu = {%s}", scripts.front().str().c_str(),
